@@ -341,6 +341,7 @@ func genC02(c *w1Case, r *simrt.Rng) {
 	g.releaseAll()
 	c.script = g.out
 	c.state = r.Chance(0.3)
+	c.burst = r.Chance(0.2)
 }
 
 func genC03(c *w1Case, r *simrt.Rng) {
@@ -357,6 +358,7 @@ func genC03(c *w1Case, r *simrt.Rng) {
 	g.steps(r.Range(8, 50), 8, 2, 3, false)
 	g.releaseAll()
 	c.script = g.out
+	c.burst = r.Chance(0.2)
 }
 
 func genC04(c *w1Case, r *simrt.Rng, thorough bool) {
@@ -442,6 +444,7 @@ func genC13(c *w1Case, r *simrt.Rng) {
 	g.releaseAll()
 	c.script = g.out
 	c.state = r.Chance(0.5)
+	c.burst = r.Chance(0.4)
 }
 
 func genC14(c *w1Case, r *simrt.Rng) {
